@@ -32,38 +32,34 @@ instance : Inv Fl := ⟨fun a => ⟨Fl.powNat a.v (ell - 2)⟩⟩
 instance : NatCast Fl := ⟨Fl.ofNat⟩
 instance : Inhabited Fl := ⟨⟨0⟩⟩
 
-/-- sparse vector over named basis elements: sorted by id, duplicates merged; zero coefficients may remain and are
-    dropped by `SVec.norm` before printing -/
+/-- sparse vector over named basis elements: a list of (id, coefficient), ids strictly increasing when built with the
+    operations below; zero coefficients may remain and are dropped by `SVec.norm` before printing.
+    (`Bpp/FreeModule.lean`: the coefficient map is a homomorphism to functions `ℕ → ZMod ℓ`, and the printed normal
+    form is empty exactly when every coefficient is zero.) -/
 structure SVec where
-  terms : Array (Nat × Fl)
+  terms : List (Nat × Fl)
 deriving Inhabited
 
 namespace SVec
-def basis (id : Nat) : SVec := ⟨#[(id, 1)]⟩
-def merge (f : Fl → Fl) (a b : SVec) : SVec := Id.run do
-  let x := a.terms
-  let y := b.terms
-  let mut out : Array (Nat × Fl) := Array.mkEmpty (x.size + y.size)
-  let mut i := 0
-  let mut j := 0
-  while i < x.size || j < y.size do
-    if i < x.size && j < y.size then
-      let (ia, va) := x[i]!
-      let (ib, vb) := y[j]!
-      if ia < ib then out := out.push (ia, va); i := i + 1
-      else if ib < ia then out := out.push (ib, f vb); j := j + 1
-      else out := out.push (ia, va + f vb); i := i + 1; j := j + 1
-    else if i < x.size then out := out.push x[i]!; i := i + 1
-    else
-      let (ib, vb) := y[j]!
-      out := out.push (ib, f vb); j := j + 1
-  return ⟨out⟩
+def basis (id : Nat) : SVec := ⟨[(id, 1)]⟩
+
+/-- merge of two id-sorted lists, `f` applied to the coefficients of the second; equal ids are added -/
+def mergeL (f : Fl → Fl) : List (Nat × Fl) → List (Nat × Fl) → List (Nat × Fl)
+  | [], ys => ys.map (fun p => (p.1, f p.2))
+  | x :: xs, [] => x :: xs
+  | (ia, va) :: xs, (ib, vb) :: ys =>
+    if ia < ib then (ia, va) :: mergeL f xs ((ib, vb) :: ys)
+    else if ib < ia then (ib, f vb) :: mergeL f ((ia, va) :: xs) ys
+    else (ia, va + f vb) :: mergeL f xs ys
+termination_by xs ys => xs.length + ys.length
+
+def merge (f : Fl → Fl) (a b : SVec) : SVec := ⟨mergeL f a.terms b.terms⟩
 def norm (a : SVec) : SVec := ⟨a.terms.filter (fun p => p.2.v != 0)⟩
 def ofList (l : List (Nat × Fl)) : SVec :=
-  l.foldl (fun acc p => merge id acc ⟨#[p]⟩) ⟨#[]⟩
+  l.foldl (fun acc p => merge id acc ⟨[p]⟩) ⟨[]⟩
 end SVec
 
-instance : Zero SVec := ⟨⟨#[]⟩⟩
+instance : Zero SVec := ⟨⟨[]⟩⟩
 instance : Add SVec := ⟨SVec.merge id⟩
 instance : Sub SVec := ⟨SVec.merge (fun x => -x)⟩
 instance : SMul Fl SVec := ⟨fun c a => ⟨a.terms.map (fun p => (p.1, c * p.2))⟩⟩
